@@ -63,6 +63,12 @@ dbase = module(defs=[
 W['C20/base_address'] = one(dbase, 'derived-before-base', prio=[path('m', 'D'), path('m', 'B')])
 W['C09/base_address'] = W['C20/base_address']
 
+sig = module(defs=[
+    T('A', [], [F('x', u32)]),
+    T('B', [], [vftable([], [fn(True, 'f', [], [SELF], None)])])],
+    impls=[impl('A', [], [af('g', 4096, args=(SELF, arg('p', ty_cptr(ty_id('BVftable')))))])])
+W['C09/sig'] = one(sig, 'generated-vftable-in-signature', prio=[path('m', 'A'), path('m', 'B')])
+
 for key, c in W.items():
     d, name = key.split('/')
     os.makedirs(os.path.join(VERIF, 'corpus', d), exist_ok=True)
